@@ -136,3 +136,8 @@ Proof. do 2 eexists. repeat split; vm_compute; reflexivity. Qed.
 Theorem C04_allows_of_current_source : forall r v, rr_allows_gen r v = rr_allows r v.
 Proof. exact rr_allows_agrees. Qed.
 Print Assumptions C04_allows_of_current_source.
+(* likewise Version.allows of version.py; together: membership in every range-like member of a constraint *)
+Theorem C04_member_allows_of_current_source : forall r v,
+  (match r with RV x => v_allows_gen x (Some v) | RR _ _ _ _ => rr_allows_gen r v end) = r_allows r v.
+Proof. exact r_allows_agrees. Qed.
+Print Assumptions C04_member_allows_of_current_source.
